@@ -52,7 +52,7 @@ import "github.com/biogo/biogo/alphabet"
 //@   ensures [count]    result == nil ==> len(s.Seq) >= old(len(s.Seq)) && forall r int :: 0 <= r && r < len(a) ==> len(a[r]) <= len(s.Seq) - old(len(s.Seq))
 //@   ensures [wf]       wf(s)
 //@   loop 1 invariant 0 <= idx && idx <= len(a) && forall r int :: 0 <= r && r < idx ==> len(a[r]) <= max
-//@   loop 1 invariant idx > 0 ==> max >= 0
+//@   loop 1 invariant max >= 0
 //@   loop 2 invariant 0 <= i && (max >= 0 ==> i <= max) && wf(s) && len(s.Seq) == old(len(s.Seq)) + i && len(s.Seq[0]) == len(a) && s.Alpha == old(s.Alpha) && s.Alpha != nil
 //@   loop 2 invariant len(b) == 0 && cap(b) >= len(a) && fresh(b) && allocated(b)
 //@   loop 2 invariant forall r int :: 0 <= r && r < len(a) ==> len(a[r]) <= max
@@ -108,7 +108,7 @@ import "github.com/biogo/biogo/alphabet"
 //@   ensures [count]    result == nil ==> len(s.Seq) >= old(len(s.Seq)) && forall r int :: 0 <= r && r < len(a) ==> len(a[r]) <= len(s.Seq) - old(len(s.Seq))
 //@   ensures [wf]       qwf(s)
 //@   loop 1 invariant 0 <= idx && idx <= len(a) && forall r int :: 0 <= r && r < idx ==> len(a[r]) <= max
-//@   loop 1 invariant idx > 0 ==> max >= 0
+//@   loop 1 invariant max >= 0
 //@   loop 2 invariant 0 <= i && (max >= 0 ==> i <= max) && qwf(s) && len(s.Seq) == old(len(s.Seq)) + i && len(s.Seq[0]) == len(a) && s.Alpha == old(s.Alpha) && s.Alpha != nil
 //@   loop 2 invariant len(b) == 0 && cap(b) >= len(a) && fresh(b) && allocated(b)
 //@   loop 2 invariant forall r int :: 0 <= r && r < len(a) ==> len(a[r]) <= max
